@@ -34,8 +34,24 @@ Definition reshape_sp_code (S : sparse V) (x : pyshp) (oldz : option (list Z)) :
   | Ok old =>
       bind (parse_shape x) (fun nz =>
         if existsb (fun d => (d <? 0)%Z) nz then Err
-        else reshape_sp_gen S (map Z.to_nat nz) old)
+        else match nz with
+             | [] => Err        (* numpy: np.unravel_index refuses a 0-d target; np.concatenate((keep_shape, ())) is a float
+                                   array, which the constructor refuses as a shape *)
+             | _ => reshape_sp_gen S (map Z.to_nat nz) old
+             end)
   end.
+
+(* sptensor.squeeze as the property demands it on EVERY shape: like tensor.squeeze after 649a706 a mode of size 0 is no singleton
+   and is kept (a sparse tensor with a size-0 mode comes out of tensor.to_sptensor(); the constructor refuses such a shape when
+   it validates).  On positive sizes this is squeeze_sp of Model/C07Ops.v; pyttb's sptensor.squeeze still tests `shape > 1`
+   (squeeze_sp_impl of Model/C07Impl.v): open finding N-C07-7 *)
+Definition squeeze_sp_any (S : sparse V) : sq_res (V:=V) (sparse V) :=
+  let s := sshape S in
+  if forallb (fun d => negb (Nat.eqb d 1)) s then SqT S
+  else match sqn s s with
+       | [] => SqScalar (den_sp v0 S (repeat 0 (length s)))
+       | s' => SqT (mkSp s' (map (sqn s) (ssubs S)) (svals S))
+       end.
 
 (* ---------------- boolean orders (np.array([True, False]), [True, False], (False, True), np.array(True)) *)
 Definition nd_is_bool (a : ndarr) : bool := match nd_kind a with DBool => true | _ => false end.
